@@ -36,6 +36,7 @@ class Run:
         self.obs = []
         self.floors = {}
         self.errors = []
+        self.unrecognised = []
         self.assumptions = []
         self.trusted = []
         self.explanation = ''
@@ -88,8 +89,25 @@ class Run:
     def floor(self, rule, n, why=''):
         self.floors[rule] = max(self.floors.get(rule, 0), n)
 
-    def error(self, msg):
-        self.errors.append(msg)
+    HARD = ('anchor ', 'below the confirmed floor', 'budget exceeded', 'internal error', 'sensitivity witness', 'twin',
+            'CFG recursion', 'not found in the current source', 'carry the SymPy mark', 'resolved (expected')
+
+    def error(self, msg, hard=None):
+        """hard: the analysis itself is broken (missing anchor, instance floor, budget, twin lost) -> ANALYSIS-ERROR, exit 2.
+        soft (default for every other message): the analysed construct has a SHAPE the rule does not recognise.  Nothing is
+        known about that construct -- neither that it holds nor that it is violated -- so it is recorded as an undecided
+        instance, printed as an UNRECOGNISED line and does not change the exit code (set VERIF_STRICT_FORMS=1 to make these
+        fatal again: fail-closed development mode)."""
+        if hard is None:
+            hard = any(k in msg for k in self.HARD)
+        if hard or os.environ.get('VERIF_STRICT_FORMS') == '1':
+            self.errors.append(msg)
+            return
+        m = re.match(r'^\s*(R\w+|RL|C\d+)\b', msg)
+        rule = m.group(1) if m else 'form'
+        if msg not in self.unrecognised:
+            self.unrecognised.append(msg)
+            self.ob(rule, '(unrecognised form)', msg[:120], UNDECIDED, msg)
 
     def assume(self, *a):
         for x in a:
@@ -109,6 +127,8 @@ class Run:
             if o['status'] != INFO:
                 counts[o['rule']] = counts.get(o['rule'], 0) + 1
         for r, n in self.floors.items():
+            if any(re.match(r'^\s*%s\b' % re.escape(r), m) for m in self.unrecognised):
+                continue        # some construct of this rule has an unrecognised shape: its instances are undecided, not missing
             if counts.get(r, 0) < n:
                 self.errors.append('rule %s examined %d instances for %s, below the confirmed floor %d'
                                    % (r, counts.get(r, 0), self.pid, n))
@@ -151,6 +171,8 @@ class Run:
                 lines.append('    path: ' + ' -> '.join(v['path']))
             lines.append('VIOLATION property=%s replay=%s' % (self.pid, os.path.relpath(rp, VERIF) if rp.startswith(VERIF) else rp))
             code = 1
+        for e in self.unrecognised:
+            lines.append('UNRECOGNISED property=%s %s' % (self.pid, e))
         if self.errors:
             for e in self.errors:
                 lines.append('ANALYSIS-ERROR property=%s %s' % (self.pid, e))
@@ -221,6 +243,7 @@ class Run:
             'wall_s': round(time.time() - self.t0, 3),
             'violations': len(new_v),
             'analysis_errors': self.errors,
+            'unrecognised_forms': self.unrecognised,
         }
 
 
